@@ -25,6 +25,7 @@ type FuncResult struct {
 	Clauses     int
 	Plan        *ReplayPlan
 	Unbound     string // the contract could not be bound to the code (reason)
+	UsesSum     bool   // some clause uses a fold: the isum lemmas are proved alongside
 }
 
 // afterRequires, when set (counterexample replay), is called once the
@@ -32,6 +33,13 @@ type FuncResult struct {
 // have been encoded; verifyFunction then stops without encoding the body.
 // checkProp is the property being checked (empty: all obligations).
 var checkProp string
+
+// clauseActive: a clause tagged with properties takes part (as assumption and
+// as obligation) only in the checks of those properties; untagged clauses take
+// part in every check of their function.
+func clauseActive(cl *Clause) bool {
+	return checkProp == "" || len(cl.Props) == 0 || hasProp(cl.Props, checkProp)
+}
 
 var afterRequires func(e *Enc, fr *Frame, entry *State, mkctx func(*State, []Val, string) *SpecCtx)
 
@@ -50,6 +58,7 @@ func verifyFunction(l *Loaded, cs *Contracts, fn *ssa.Function, con *Contract) (
 	stateSorts = map[string]string{"alloc": "Int"} // per function: sorts are declared per builder
 	res = &FuncResult{Name: contractName(fn), Builder: e.B}
 	defer func() {
+		res.UsesSum = e.usesSum
 		if r := recover(); r != nil {
 			if ee, ok := r.(encErr); ok {
 				res.Err = ee.msg
@@ -122,8 +131,11 @@ func verifyFunction(l *Loaded, cs *Contracts, fn *ssa.Function, con *Contract) (
 		e.note("package invariant assumed on entry: %s", gl.Src)
 	}
 	for _, rq := range con.Requires {
-		e.B.assume(e.compileBool(mkctx(entry, nil, "requires of "+res.Name), rq.Expr))
 		res.Clauses++
+		if !clauseActive(rq) {
+			continue // a precondition stated for another property only is not an assumption of this one
+		}
+		e.B.assume(e.compileBool(mkctx(entry, nil, "requires of "+res.Name), rq.Expr))
 	}
 	if afterRequires != nil {
 		afterRequires(e, fr, entry, mkctx)
@@ -161,10 +173,15 @@ func verifyFunction(l *Loaded, cs *Contracts, fn *ssa.Function, con *Contract) (
 	}
 
 	for k, en := range con.Ensures {
+		if !clauseActive(en) {
+			res.Clauses++
+			continue
+		}
 		ctx := mkctx(out, rets, "ensures of "+res.Name)
 		g := e.compileBool(ctx, en.Expr)
 		o := e.addObl(fr, "ensures", implies(returns, g), en.Src, fn.Pos(), en.Props)
 		o.Name = fmt.Sprintf("%s/ensures#%d", res.Name, k+1)
+		o.Cases = e.retConds // one case per return site
 		o.Model = model
 		res.Clauses++
 		// clauses are proved in order: a later one may use the earlier ones of
